@@ -63,7 +63,9 @@ def binary_stochastic_quantize(v: jnp.ndarray,
   v = jnp.nan_to_num((v - v_min) / (v_max - v_min))
   v = jnp.maximum(0., jnp.minimum(v, 1.))
   rand = jax.random.uniform(key=rng, shape=v.shape)
-  return jnp.where(rand > v, v_min, v_max)
+  # rand is uniform on [0, 1): `rand >= v` keeps a coordinate equal to v_min
+  # (v == 0) at v_min even when its draw is exactly 0.
+  return jnp.where(rand >= v, v_min, v_max)
 
 
 def uniform_stochastic_quantize(v: jnp.ndarray,
